@@ -18,7 +18,7 @@ ASSUMPTIONS = [
     '(for those only NOJUMP/ONCE/HPRIO/STOP/NOREENTRY are asserted)',
     'a catch-all probe handler with priority 1000 marks the dispatch start of every event',
 ]
-REQUIRED = ['stopping_handler_returns_a_generator', 'pass_with_mixed_priorities', 'fired_from_handler_during_pass', 'stop_called', 'nested_flush', 'equal_priority_ties',
+REQUIRED = ['stop_called_by_a_handler_that_does_not_take_the_event', 'stopping_handler_returns_a_generator', 'pass_with_mixed_priorities', 'fired_from_handler_during_pass', 'stop_called', 'nested_flush', 'equal_priority_ties',
             'negative_and_float_priorities', 'nested_flush_on_last_of_batch', 'multi_channel_event', 'stop_then_raise',
             'manager_with_many_events_behind_it', 'events_pending_on_a_component_that_joins_the_tree', 'event_object_fired_again_by_its_own_handler']
 REQUIRED_OBLIGATIONS = ['ORD', 'NOJUMP', 'NOREENTRY', 'HPRIO', 'STOP', 'ONCE']
@@ -95,6 +95,7 @@ def evaluate(case, w):
     cur = None  # the running top-level pass
     hs = {}     # uid -> [(hid, prio)]
     stops = {}  # uid -> min prio at which stop was called first
+    sigs = {hd["hid"]: hd.get("sig") for hd in case["handlers"]}
     nontrivial = False
     for entry in w.log:
         k = entry[0]
@@ -171,6 +172,8 @@ def evaluate(case, w):
         elif k == 'STOP':
             _, uid, hid = entry
             marks.add('stop_called')
+            if sigs.get(hid):
+                marks.add('stop_called_by_a_handler_that_does_not_take_the_event')
             p = dict(declared[w.events[uid]['name']])[hid]
             stops.setdefault(uid, p)
     counts['STOP'] = len(stops) + sum(1 for c, _ in problems if c == 'STOP')  # one obligation per stopped event
@@ -226,6 +229,13 @@ def corpus():
         HD(1, 'a', 3, []), HD(2, 'a', 1, [['stop']]), HD(3, 'a', 1, []), HD(4, 'a', 0.5, []), HD(5, 'a', -1, []),
         HD(6, 'b', -2, []), HD(7, 'b', -0.5, [['fire', EV('a', 0)]]), HD(8, 'b', 0, []), HD(9, 'b', 0, [['stop']])],
         'passes': [[EV('a'), EV('b'), EV('a', 1)]]})
+    # stop() called by handlers whose signature does not ask for the event (they reach it through its arguments): stopped is stopped
+    for sig in ('noevent', 'other_name'):
+        cs.append({'name': 'stop-without-event-parameter-' + sig, 'handlers': [
+            HD(1, 'a', 3, []), dict(HD(2, 'a', 1, [['stop']]), sig=sig), HD(3, 'a', 1, []), dict(HD(4, 'a', 0.5, []), sig=sig), HD(5, 'a', -1, []),
+            dict(HD(6, 'b', 2, [['fire', EV('a', 0)], ['stop'], ['ret', 'v']]), sig=sig), dict(HD(7, 'b', -0.5, []), sig=sig), HD(8, 'b', -2, []),
+            dict(HD(9, 'c', 0, [['stop'], ['raise']]), sig=sig), dict(HD(10, 'c', 0, []), sig=sig), dict(HD(11, 'c', -1, []), sig=sig)],
+            'passes': [[EV('a'), EV('b'), EV('c'), EV('a', 1)], [EV('c', -1), EV('b', 2)]]})
     # stop() followed by an exception in the same handler still stops the event; a raise alone does not
     cs.append({'name': 'stop-then-raise', 'handlers': [
         HD(1, 'a', 5, []), HD(2, 'a', 2.5, [['stop'], ['raise']]), HD(3, 'a', 1, []), HD(4, 'a', -0.5, []),
@@ -321,6 +331,11 @@ def gen_case(rng):
         for _ in range(rng.randint(1, 2)):
             passes.insert(rng.randint(0, len(passes)), {'join': [EV(rng.choice(names[rng.randint(0, nlev - 1)]), rng.choice(PRIOS)) for _ in range(rng.randint(2, 7))]})
     case = {'handlers': handlers, 'passes': passes}
+    if rng.random() < 0.25:
+        # some handlers do not take the event object (how a handler is declared changes nothing about what it may do)
+        for h in handlers:
+            if rng.random() < 0.4:
+                h['sig'] = rng.choice(['noevent', 'other_name'])
     if rng.random() < 0.2:
         case['mk'] = rng.choice(['attr', 'renamed'])   # events whose name is not their class name
     if rng.random() < 0.01:
